@@ -1492,8 +1492,16 @@ write_gvar_data(Relocation *cur, Initializer *init, Type *ty, char *buf, int off
     return cur;
   }
 
+  // The initializer is converted to the type of the object. A conversion
+  // to _Bool or from a floating type to an integer type is not a mere
+  // truncation of the 64-bit value.
+  Node *expr = init->expr;
+  add_type(expr);
+  if (ty->kind == TY_BOOL || (is_flonum(expr->ty) && is_integer(ty)))
+    expr = new_cast(expr, ty);
+
   char **label = NULL;
-  uint64_t val = eval2(init->expr, &label);
+  uint64_t val = eval2(expr, &label);
 
   if (!label) {
     write_buf(buf + offset, val, ty->size);
